@@ -333,6 +333,35 @@ theorem IluLevels.scale {ω : K} {c : K} (hc : c ≠ 0) : ∀ {n : ℕ} (h : Hie
   | _, .relax _ _ _, hl => IluLevel.scale hl hc
   | _, .level _ _ _ _ _ next, hl => ⟨IluLevel.scale hl.1 hc, IluLevels.scale hc next hl.2⟩
 
+/-- level `(A, N₁, N₂)` is smoothed by ILU(k): `A` is denoted by a well-formed square CRS matrix on which the `iluk`
+constructor succeeds and both sweep matrices are the `iluN` of its factors (no symmetry, no sortedness required) -/
+def IlukLevel (lfil : Nat) (ω : K) {n : ℕ} (A N₁ N₂ : Matrix (Fin n) (Fin n) K) : Prop :=
+  ∃ (Ac : CRS K) (F : IluFactors K), Ac.WF ∧ Ac.ncols = Ac.nrows ∧
+    ∃ hn : Ac.nrows = n, (iluk lfil ω).setup Ac = .ok F ∧ A = matOf Ac n n ∧ N₁ = iluN ω F n ∧ N₂ = iluN ω F n
+
+def IlukLevels (lfil : Nat) (ω : K) : {n : ℕ} → Hier K n → Prop
+  | _, .direct _ => True
+  | _, .relax A N₁ N₂ => IlukLevel lfil ω A N₁ N₂
+  | _, .level A N₁ N₂ _ _ next => IlukLevel lfil ω A N₁ N₂ ∧ IlukLevels lfil ω next
+
+theorem IlukLevel.scale {lfil : Nat} {ω : K} {n : ℕ} {A N₁ N₂ : Matrix (Fin n) (Fin n) K}
+    (h : IlukLevel lfil ω A N₁ N₂) {c : K} (hc : c ≠ 0) : IlukLevel lfil ω (c • A) (c⁻¹ • N₁) (c⁻¹ • N₂) := by
+  obtain ⟨Ac, F, hA, hsq, hn, hF, hAm, h1, h2⟩ := h
+  obtain ⟨R, hR⟩ := (C06.iluk_trace_exists lfil ω Ac F).mp hF
+  obtain ⟨_, u2, _, u4, u5, _, u7, u8, _, _, _⟩ := C06.iluk_factors_wf lfil Ac hA hsq F R hR
+  have hN : iluN ω (scaleFactors c F) n = c⁻¹ • iluN ω F n :=
+    iluN_scale c hc ω F n u2 u4 (by omega) (by omega) (by omega)
+  refine ⟨Amgcl.scale Ac c, scaleFactors c F, scale_wf Ac c hA, by rw [scale_ncols', scale_nrows']; exact hsq,
+    by rw [scale_nrows']; exact hn, ?_, ?_, by rw [h1, hN], by rw [h2, hN]⟩
+  · rw [(iluk_scale c hc lfil ω Ac).1, hF]; rfl
+  · rw [hAm, matOf_scale]
+
+theorem IlukLevels.scale {lfil : Nat} {ω : K} {c : K} (hc : c ≠ 0) :
+    ∀ {n : ℕ} (h : Hier K n), IlukLevels lfil ω h → IlukLevels lfil ω (h.scale c)
+  | _, .direct _, _ => trivial
+  | _, .relax _ _ _, hl => IlukLevel.scale hl hc
+  | _, .level _ _ _ _ _ next, hl => ⟨IlukLevel.scale hl.1 hc, IlukLevels.scale hc next hl.2⟩
+
 end sym
 
 section symcycle
@@ -362,6 +391,19 @@ example : ((Hier.relax (matOf exS 3 3) (iluN (3/4 : ℚ) exSF 3) (iluN (3/4) exS
   (ilu0_apply_scale (3/4 : ℚ) (by norm_num) ⟨1, 1, 1⟩ 2 _
     (show IluLevels (3/4 : ℚ) (Hier.relax (matOf exS 3 3) (iluN (3/4 : ℚ) exSF 3) (iluN (3/4) exSF 3)) from
       ⟨exS, exSF, by decide, rfl, by decide, exS_sym, rfl, exS_ilu0 _, rfl, rfl, rfl⟩)).2.2
+
+/-- **`iluk_apply_scale`**: the same for ILU(k) smoothing, every fill level, no hypothesis on the level matrices beyond
+well-formedness (not even symmetry or sorted rows) -/
+theorem iluk_apply_scale (lfil : Nat) (ω : K) {c : K} (hc : c ≠ 0) (p : CycPrm) (k : ℕ) {n : ℕ} (h : Hier K n)
+    (hilu : IlukLevels lfil ω h) :
+    IlukLevels lfil ω (h.scale c) ∧ (h.scale c).B p = c⁻¹ • h.B p ∧ (h.scale c).applyB p k = c⁻¹ • h.applyB p k :=
+  ⟨IlukLevels.scale hc h hilu, Hier.scale_B p hc h, Hier.scale_applyB p hc k h⟩
+
+example : IlukLevels 1 (1 : ℚ) ((Hier.relax (matOf C06.exK 5 5) (iluN 1 C06.exKF 5) (iluN 1 C06.exKF 5)).scale 4) :=
+  (iluk_apply_scale 1 (1 : ℚ) (by norm_num) ⟨1, 1, 1⟩ 1 _
+    (show IlukLevels 1 (1 : ℚ) (Hier.relax (matOf C06.exK 5 5) (iluN 1 C06.exKF 5) (iluN 1 C06.exKF 5)) from
+      ⟨C06.exK, C06.exKF, by decide, rfl, rfl,
+        (C06.iluk_trace_exists 1 (1 : ℚ) C06.exK C06.exKF).mpr ⟨C06.exKR, C06.exK_ilukT⟩, rfl, rfl, rfl⟩)).1
 
 -- one smoothed level on `exS` (coarsest level smoothed, `npre = npost = 2`), damping 3/4
 example : ((Hier.relax (matOf exS 3 3) (iluN (3/4 : ℚ) exSF 3) (iluN (3/4) exSF 3)).B ⟨2, 2, 1⟩)ᵀ
